@@ -84,6 +84,12 @@ impl InvokerHandler {
         self.handlers.push((url.to_owned(), handler));
     }
 
+    /// verification hook: the request types this node has a handler for
+    #[cfg(feature = "verif_hooks")]
+    pub fn verif_handler_types(&self) -> Vec<String> {
+        self.handlers.iter().map(|(t, _)| t.clone()).collect()
+    }
+
     pub fn match_handler<'a>(
         &'a self,
         url: &str,
